@@ -2,8 +2,8 @@
 
 History explorer: an alphabet of 21 assemble() calls (programs that define constants / labels / register aliases other
 programs use WITHOUT defining, programs failing in five different passes, compressed / uncompressed, a path program
-with an include whose files are rewritten between calls, dictionaries supplied or omitted); ALL histories of length d
-are executed, each in one fresh interpreter (one child process per history), and every step's complete result (bytes
+with an include whose files are rewritten between calls, shared / differing include_dirs, dictionaries supplied or omitted); all histories up to the
+stated length (see coverage.bound) are executed, each in one fresh interpreter (one child process per history), and every step's complete result (bytes
 or exception type + message + line, labels and constants incl. their order) must equal the result of the same call
 alone in a fresh interpreter.  A structural hash of everything mutable reachable from bronzebeard.asm is recorded after
 every call (expected: one state); dictionaries handed out by earlier calls must stay untouched.
